@@ -84,7 +84,7 @@ func (g *dgen) expr(t string, depth int) *sx.Node {
 		case 1:
 			return varRef("undefined_" + strconv.Itoa(g.r.Intn(3)))
 		case 2:
-			return fnCall("no_such_function", g.expr("num", 0))
+			return fnCall([]string{"no_such_function", "rand", "dic", "roun", "flor", "strin", "visite"}[g.r.Intn(7)], g.expr("num", 0))
 		case 3:
 			return fnCall("noret")
 		case 4:
@@ -389,8 +389,40 @@ func (g *dgen) stmts(depth int) []*sx.Node {
 			st = g.line(false)
 		}
 		out = append(out, st)
+		if st.TagName() == "line" && g.r.Intn(4) == 0 {
+			if tw := lineTwin(st); tw != nil {
+				out = append(out, tw)
+				i++
+			}
+		}
 	}
 	return out
+}
+
+// lineTwin: the line whose text is the written form of st with its braces as literal characters - what the
+// parser sees of `a {$x} b` and of `a \{$x\} b` differs only in the token types (nil unless every inline
+// expression of st is a variable and there is at least one).
+func lineTwin(st *sx.Node) *sx.Node {
+	text := ""
+	found := false
+	if len(st.L[1].L) == 0 || st.L[1].L[0].TagName() != "t" {
+		return nil // an escaped character at the very start of a line is its own matter (known finding D21)
+	}
+	for _, e := range st.L[1].L {
+		switch {
+		case e.TagName() == "t":
+			text += e.L[1].Text()
+		case e.TagName() == "e" && e.L[1].TagName() == "var":
+			text += "{$" + e.L[1].L[1].Text() + "}"
+			found = true
+		default:
+			return nil
+		}
+	}
+	if !found || strings.TrimSpace(text) != text {
+		return nil
+	}
+	return sx.Tag("line", sx.List(sx.Tag("t", sx.Str(text))), sx.List(), sx.List())
 }
 
 func (g *dgen) target() *sx.Node {
@@ -427,7 +459,7 @@ func (g *dgen) stmt(depth int) *sx.Node {
 	}
 	switch g.weighted(ws) {
 	case 0:
-		return g.line(false)
+		return g.line(g.r.Intn(6) == 0) // a sixth of the plain lines carry a <<if ...>> condition
 	case 1:
 		k := 1 + g.r.Intn(3)
 		opts := []*sx.Node{}
@@ -436,7 +468,14 @@ func (g *dgen) stmt(depth int) *sx.Node {
 			if g.r.Intn(4) != 0 {
 				body = g.stmts(depth + 1)
 			}
-			opts = append(opts, sx.Tag("opt", g.line(true), sx.List(body...)))
+			ol := g.line(true)
+			if g.r.Intn(4) == 0 {
+				// text and condition of the option both call the logging probe: the order in which a group's
+				// texts and conditions are evaluated shows in the host's log
+				ol.L[1].L = append(ol.L[1].L, sx.Tag("e", fnCall("p", strLit("ot"), numLit(float64(i)))))
+				ol.L[2] = fnCall("p", strLit("oc"), boolLit(g.r.Intn(3) != 0))
+			}
+			opts = append(opts, sx.Tag("opt", ol, sx.List(body...)))
 		}
 		return sx.Tag("opts", opts...)
 	case 2:
@@ -555,6 +594,15 @@ func (g *dgen) command() *sx.Node {
 	}
 	elems := []*sx.Node{strLit(name)}
 	n := g.r.Intn(4)
+	if g.cfg.loopPct > 0 && g.r.Intn(3) == 0 {
+		// an argument without any variable whose value (or whose evaluation) is observable each time the
+		// statement runs: a visit count, the logging probe
+		if g.cfg.visitedFns && len(g.nodes) > 0 && g.r.Intn(2) == 0 {
+			elems = append(elems, fnCall("visited_count", strLit(g.pick(g.nodes))))
+		} else {
+			elems = append(elems, fnCall("p", strLit("arg"), numLit(float64(g.r.Intn(5)))))
+		}
+	}
 	for i := 0; i < n; i++ {
 		switch g.r.Intn(5) {
 		case 0:
@@ -674,10 +722,34 @@ func (g *dgen) dialogue() []*sx.Node {
 		nodes = append(nodes, sx.Tag("node", sx.List(headers...), sx.List(body...)))
 	}
 	// duplicate title: FindNode returns the first one
-	if g.r.Intn(15) == 0 && len(nodes) > 1 {
-		dup := sx.Tag("node", sx.List(sx.List(sx.Str("title"), sx.Str(g.nodes[g.r.Intn(len(g.nodes))]))),
+	dupOdds := 15
+	if g.cfg.visitLines {
+		dupOdds = 4
+	}
+	if g.r.Intn(dupOdds) == 0 && len(nodes) > 1 {
+		// ... whatever its own headers say (the shadowed node's tracking header is nobody's business)
+		dupHeaders := []*sx.Node{sx.List(sx.Str("title"), sx.Str(g.nodes[g.r.Intn(len(g.nodes))]))}
+		if g.r.Intn(2) == 0 {
+			dupHeaders = append(dupHeaders, sx.List(sx.Str("tracking"), sx.Str([]string{"never", "always"}[g.r.Intn(2)])))
+		}
+		dup := sx.Tag("node", sx.List(dupHeaders...),
 			sx.List(sx.Tag("line", sx.List(sx.Tag("t", sx.Str("duplicate"))), sx.List(), sx.List())))
-		nodes = append(nodes, dup)
+		// anywhere after the node it shadows: jumps to nodes behind it walk past it
+		first := 0
+		for k, n := range nodes {
+			if n.L[1].L[len(n.L[1].L)-1].L[0].Text() == "title" || true {
+				for _, h := range n.L[1].L {
+					if h.L[0].Text() == "title" && h.L[1].Text() == dupHeaders[0].L[1].Text() {
+						first = k
+					}
+				}
+			}
+			if first != 0 {
+				break
+			}
+		}
+		at := first + 1 + g.r.Intn(len(nodes)-first)
+		nodes = append(nodes[:at], append([]*sx.Node{dup}, nodes[at:]...)...)
 	}
 	return nodes
 }
